@@ -150,6 +150,8 @@ func runC16(c *Ctx) {
 	R.Rule("C16.R2", "fail-stop: on the err != nil edge of a write the function returns that very error value; no destination write and no path back to the token loop is reachable from that edge")
 	R.Rule("C16.R3", "the writer does not escape: the io.Writer parameter (and its wrappers) is used only as the receiver of destination writes, in the stringWriter type assertion, or stored in the asStringWriter adapter")
 	R.Rule("C16.R4", "reader errors surface: after Tokenizer.Next()==ErrorToken the only `return nil` is guarded by Err()==io.EOF and every other return yields the Err() value; sanitizeWithBuff returns a fresh empty buffer on error; SanitizeReaderToWriter returns sanitize's error unchanged")
+	R.Rule("C16.R6", "the source's errors reach the tokenizer (= C15.R4, cited): the reader parameter of sanitize is only handed to html.NewTokenizer — a wrapper or a look-ahead between the caller's reader and the tokenizer can swallow, delay or re-order a read error, which R4 (judging Tokenizer.Err) then never sees")
+	readerOpaque(c, "C16.R6", "something stands between the caller's reader and the tokenizer and can swallow or alter a read error")
 	R.Rule("C16.R5", "asStringWriter.WriteString forwards Write's results unchanged")
 	R.Assume(TrustGo, "bytes.Buffer writes never fail", "the destination's Write/WriteString performs no hidden retry; a transient failure is reported as a non-nil error")
 
